@@ -107,4 +107,9 @@ def errOf : Except Err Unit → Option Err
 example : errOf (act ((run (initK 2) [.start, .api .plot 0, .recv, .pop false 0, .step1]).getD {}) .delete 0).2 = some .notStill := by decide
 example : errOf (act (initK 2) .delete 1).2 = none ∧ (act (initK 2) .delete 1).1.deleted = [1] := by decide
 
+/-- the guards of `RemoveWS` / `DeleteWS` that the model's `remove` / `delete` labels transcribe stand in the source as
+    transcribed (regenerated): a space in use, registered or ready, else `ErrWorkSpaceIsNotStill`; only `DeleteWS` reaches
+    `ws.Delete()` -/
+theorem C11_condition_facts : Facts.condKeeperRemove = true ∧ Facts.condKeeperDelete = true := by decide
+
 end MassVerif.Keeper
